@@ -61,7 +61,9 @@ def matchStr (p n : Str) : String :=
 
 def vcmpApi (w v : Str) : String :=
   String.join <| [">", ">=", "<", "<="].map fun o =>
-    matchStr (['p'] ++ o.toList ++ v) (['p', '-'] ++ w)
+    match matchStr (['p'] ++ o.toList ++ v) (['p', '-'] ++ w) with
+    | "err" => "e"
+    | r => r
 
 def showComp : Comp UInt8 → String
   | .root => "R" | .cur => "C" | .parent => "P"
@@ -573,6 +575,7 @@ def handler (prop : String) : Handler := fun op args impl =>
       | "C06" => oracleC06 op args a impl m
       | "C18" => oracleC18 op a impl
       | "C19" => oracleC19 op a impl
+      | "C17" => oracleC17 args impl
       | _ => ("na", "")
     some (m, o, t)
 
